@@ -254,3 +254,58 @@ func VerifC04CrashCreate(h *verifh.H) {
 	}
 	h.Observe("acked", h.Acked())
 }
+
+// VerifC04LargeBatch: one StoreEntities call is one batch however large it is:
+// a batch of N entities whose k-th entity is rejected (a null reference)
+// returns an error and leaves nothing behind — no entity version, change
+// entry, latest pointer, relation or item count — in the running store and
+// after a restart; the same batch without the bad entity is stored whole.
+func VerifC04LargeBatch(h *verifh.H) {
+	env := VerifConfig(h, time.Hour)
+	hub := VerifOpenHub(env)
+	ds, err := hub.Dsm.CreateDataset("d", nil)
+	h.Assert(err == nil, "create")
+	n := h.Param("n", 40)
+	bad := h.Choice("bad", 3) // 0: none, 1: the last entity, 2: one in the last tenth
+	var batch []*Entity
+	for i := 0; i < n; i++ {
+		e := NewEntity("ns0:b"+itoa(i), 0)
+		e.Properties["ns0:v"] = "x"
+		e.References["ns0:p1"] = "ns0:hub"
+		batch = append(batch, e)
+	}
+	switch bad {
+	case 1:
+		batch[n-1].References["ns0:p1"] = nil
+	case 2:
+		batch[n-1-n/10].References["ns0:p1"] = nil
+	}
+	err = ds.StoreEntities(batch)
+	check := func(when string) {
+		d := hub.Dsm.GetDataset("d")
+		res, lerr := d.GetEntities("", -1)
+		h.Assert(lerr == nil, "listing")
+		ch, cerr := d.GetChanges(0, 0, false)
+		h.Assert(cerr == nil, "feed")
+		want := 0
+		if bad == 0 {
+			want = n
+		}
+		h.Assert(len(res.Entities) == want && len(ch.Entities) == want, "a rejected batch leaves nothing behind, an accepted one is there whole :: "+when+" listed="+itoa(len(res.Entities))+" changes="+itoa(len(ch.Entities))+" want="+itoa(want))
+		r, qerr := hub.Store.GetManyRelatedEntitiesBatch([]string{"ns0:hub"}, "ns0:p1", true, []string{"d"}, 0, true)
+		if qerr == nil {
+			h.Assert(len(r.Relations) == want, "relations of a rejected batch are not indexed :: "+when+" got="+itoa(len(r.Relations)))
+		} else {
+			h.Assert(want == 0, "relation query fails only when nothing was stored")
+		}
+	}
+	if bad == 0 {
+		h.Assert(err == nil, "a well formed batch is accepted")
+	} else {
+		h.Assert(err != nil, "a batch with a null reference is rejected")
+	}
+	check("running store")
+	hub = hub.Restart()
+	check("after a restart")
+	h.Observe("bad", bad)
+}
